@@ -142,7 +142,7 @@ def main(argv=None):
                       {"kind": "direct", "text": t2, "permuted": t1, "error": c1.err}, finding_key="C10-headerless-block-absorbed")
     # directed: a text that defines one name twice, differently, in two blocks of one component is not reorderable; the
     # only order-independent outcome is the same verdict for every order of the two blocks
-    for i in range(9 if a.tier == "quick" else 90):
+    for i in range(12 if a.tier == "quick" else 120):
         m0 = gen.model(n_comps=rng.choice([1, 2]), n_params=rng.choice([2, 3]), n_inters=rng.choice([2, 3, 4]), p_unused=0.0)
         eb = [b for b in m0["blocks"] if b["kind"] == "expressions" and b["lines"]]
         if not eb:
@@ -151,12 +151,18 @@ def main(argv=None):
         ln = rng.choice(b0["lines"])
         summ = lang.model_summary(m0)
         others_n = [x_ for x_ in summ["states"] + summ["parameters"] if x_ not in lang.variables(ln["expr"])]
-        variant = ["same_deps", "other_deps", "declaration"][i % 3]
+        variant = ["same_deps", "other_deps", "declaration", "parentheses"][i % 4]
         if variant == "other_deps" and others_n:
             # the second definition reads one more name (another dependency set)
             texpr = ("bin", "+", ln["expr"], ("var", rng.choice(others_n)))
         else:
             texpr = ("bin", "+", ln["expr"], ("bin", "*", ("num", "0"), ln["expr"]))
+        if variant == "parentheses" and len(summ["states"] + summ["parameters"]) >= 2:
+            # two definitions that differ in their parentheses only: e*(u + v) and e*u + v
+            u_, v_ = rng.sample(summ["states"] + summ["parameters"], 2)
+            e0 = ln["expr"]
+            ln["expr"] = ("bin", "*", e0, ("bin", "+", ("var", u_), ("var", v_)))
+            texpr = ("bin", "+", ("bin", "*", e0, ("var", u_)), ("var", v_))
         twin = {"kind": "expressions", "comps": list(b0.get("comps") or []),
                 "lines": [{"name": ln["name"], "expr": texpr, "comment": None}]}
         if variant == "declaration":
